@@ -277,3 +277,4 @@ def nan_value():
 row_twin = row_frame
 row_frame_drop = row_frame
 fill_only_missing = column_has_present = row_frame
+next_days = next_seconds = is_last_row = row_frame
